@@ -130,6 +130,9 @@ def rule_aux(ctx):
     B.check_aux(ctx, "C02.AUX")
 
 
+# a rejected complete element must be removed by exactly its own length, or characters of the message behind it are lost
+IMPORTS = [('C11', 'C11.RECOVER')]
+
 RULES = [
     ("C02.LOOP", rule_loop, "receive loops: read -> exactly one append(chunk) -> exactly one process(consumer); exit only on empty read"),
     ("C02.DECODE", rule_decode, "wire codec is a total single-byte codec"),
